@@ -32,7 +32,8 @@ PINS = {
     'collections.py::Track.__init__': '01f0c36a2b9a4fbb',            # SrcColl: `type(self)(xs)` is the model's `rewrap`
     'collections.py::CollectionBase.__init__': '998def96113cc433',
     'utils/functions.py::is_sub_list': 'a65933a1f69295ee',            # SrcRelate: the model's `isSubList`
-    '_geometry.py::do_edges_intersect': 'c6c432c7d6b4dfad',          # SrcRelate: the model's sweep (tied by C02's streams)
+    '_geometry.py::do_edges_intersect': 'c6c432c7d6b4dfad',
+    '_geometry.py::ensure_edge_bounds': 'a705a05bf476cf50',                    # SrcCalc: the model's `ensureEdge`          # SrcRelate: the model's sweep (tied by C02's streams)
 }
 
 
@@ -543,9 +544,81 @@ def curved_unit():
                             ('holes', 'List (GV.Sphere.Coord α → Bool)')])
 
 
+# ----------------------------------------------------------------------------------------------------------
+# geostructures/calc.py :: haversine_distance_meters, bearing_degrees, inverse_haversine_radians / _degrees   (C07)
+#
+# the formulas themselves, generic over `Num α`: every arithmetic operation in source order (so that the binary64 instance
+# reproduces the floating-point results); `math.*` are the class's functions, `x ** 2` its `pow2`, `%` Python's float
+# modulo, `min`/`max` return the first extremal argument; `EARTH_RADIUS` is the parameter `R` (regenerated from `_const.py`
+# where the model is used); `ensure_edge_bounds` is the model's `ensureEdge` (pinned); `round_half_up(x, p)` is the
+# parameter `rnd` (the rounding at the requested precision; the theorems are about the un-rounded values); the
+# destination is the (lon, lat) pair handed to the `Coordinate` constructor (C08's subject), `z` passes through.
+
+def calc_unit():
+    src = py2lean.Source(_repo('calc.py'))
+    insts = [
+        Inst('haversine_distance_meters', 'haversine', [('coord1', 'C'), ('coord2', 'C')], 'N'),
+        Inst('bearing_degrees', 'bearing', [('coord1', 'C'), ('coord2', 'C')], 'N'),
+        Inst('inverse_haversine_radians', 'destination', [('start', 'C'), ('angle_radians', 'N'), ('distance_meters', 'N')], 'C'),
+        Inst('inverse_haversine_degrees', 'destinationDeg', [('start', 'C'), ('angle_degrees', 'N'), ('distance_meters', 'N')], 'C'),
+    ]
+    py2lean.LEAN_TYPE.setdefault('N', 'α')
+    py2lean.LEAN_TYPE.setdefault('C', 'GV.Sphere.Coord α')
+
+    def fn1(name):
+        def f(tr, args):
+            if [a.typ for a in args] not in (['N'], ['Int']):
+                raise Unsupported(f'math function applied to {", ".join(a.typ for a in args)}')
+            x = args[0].text if args[0].typ == 'N' else f'(Num.ofI {args[0].text})'
+            return Val(f'({name} {x})', 'N')
+        return f
+
+    def atan2(tr, args):
+        if [a.typ for a in args] != ['N', 'N']:
+            raise Unsupported('math.atan2 of ' + ', '.join(a.typ for a in args))
+        return Val(f'(Num.atan2 {args[0].text} {args[1].text})', 'N')
+
+    def edge(tr, args):
+        if [a.typ for a in args] != ['C', 'C']:
+            raise Unsupported('ensure_edge_bounds(' + ', '.join(a.typ for a in args) + ')')
+        return Val(f'(GV.Sphere.ensureEdge {args[0].text} {args[1].text})', 'Prod C C')
+
+    def rnd(tr, args):
+        if not args or args[0].typ != 'N':
+            raise Unsupported('round_half_up of ' + ', '.join(a.typ for a in args))
+        return Val(f'(rnd {args[0].text})', 'N')      # the precision argument selects which rounding `rnd` stands for
+
+    def coordinate(tr, args):
+        if [a.typ for a in args] != ['N', 'N']:
+            raise Unsupported('Coordinate(' + ', '.join(a.typ for a in args) + ')')
+        return Val(f'({args[0].text}, {args[1].text})', 'C')
+
+    def kw(tr, e):
+        f = e.func
+        name = f.id if isinstance(f, py2lean.ast.Name) else None
+        return name == 'Coordinate' and [k.arg for k in e.keywords] == ['z'] and py2lean.ast.unparse(e.keywords[0].value) == 'start.z'
+
+    def method(tr, recv, attr, args):
+        # `kwargs.get('precision', 5)`: the requested precision (a parameter of the rounding, not of the formula)
+        return Val('()', 'None') if (recv.typ == 'Kw' and attr == 'get') else None
+
+    intr = {'math.sin': fn1('Num.sin'), 'math.cos': fn1('Num.cos'), 'math.asin': fn1('Num.asin'), 'math.sqrt': fn1('Num.sqrt'),
+            'math.radians': fn1('GV.Sphere.radians'), 'math.degrees': fn1('GV.Sphere.degrees'), 'math.atan2': atan2,
+            'ensure_edge_bounds': edge, 'round_half_up': rnd, 'Coordinate': coordinate}
+    unit = Unit('SrcCalc', src, 'GV.Src.Calc', ['GeoVerif.Model.Sphere'], insts, {},
+                header='open GV Num\nvariable {α : Type} [Num α]',
+                attr_types={('C', 'longitude'): ('{}.1', 'N'), ('C', 'latitude'): ('{}.2', 'N')},
+                pins={'_geometry.py::ensure_edge_bounds': PINS['_geometry.py::ensure_edge_bounds']},
+                intrinsics=intr,
+                hooks={'isinstance': lambda typ: None, 'float_as_int': True, 'keywords': kw, 'method': method,
+                       'constants': {'EARTH_RADIUS': ('R', 'N'), 'math.pi': ('Num.pi', 'N')}},
+                ctx_params=[('rnd', 'α → α'), ('R', 'α')])
+    return unit
+
+
 UNITS = {'SrcTime': time_unit, 'SrcBase': base_unit, 'SrcMulti': multi_unit, 'SrcColl': coll_unit, 'SrcPip': pip_unit,
          'SrcMember': member_unit, 'SrcTrack': track_unit, 'SrcRelate': relate_unit, 'SrcCoord': coord_unit,
-         'SrcCurved': curved_unit}
+         'SrcCurved': curved_unit, 'SrcCalc': calc_unit}
 
 
 def render(name):
